@@ -65,6 +65,18 @@ func writeJSON(path string, v any) {
 	os.WriteFile(path, append(data, '\n'), 0o644)
 }
 
+// replaySpent: time spent replaying counterexamples in this run. The quick tier
+// replays until 150 s are used up, the thorough tier until 1200 s; later
+// violations are still reported, with the solver output, as not replayed.
+var replaySpent time.Duration
+
+func replayBudgetLeft(o runOpts) bool {
+	if o.tier == "thorough" {
+		return replaySpent < 1200*time.Second
+	}
+	return replaySpent < 150*time.Second
+}
+
 func report(eng *Engine, o runOpts, results []*FuncResult, all []*Obligation, tLoad, tGen, tSolve time.Duration, t0 time.Time, work string) int {
 	known := loadKnown(o.verif)
 	isKnown := func(name string) *KnownFinding {
@@ -136,8 +148,12 @@ func report(eng *Engine, o runOpts, results []*FuncResult, all []*Obligation, tL
 				// the enumeration ran on the real code: its failing inputs are in the output
 				confirmed = ob.Status == "violated"
 				writeReplayFile(o, ob, path, "ENUMERATION-ON-REAL-CODE", ob.Output)
-			} else if !o.noReplay {
+			} else if !o.noReplay && replayBudgetLeft(o) {
+				tr := time.Now()
 				confirmed = replayObligation(eng, o, ob, path, work)
+				replaySpent += time.Since(tr)
+			} else if !o.noReplay {
+				writeReplayFile(o, ob, path, "not-run", "replay budget of this tier exhausted by earlier violations of the same run (the solver's answer is attached)")
 			} else {
 				writeReplayFile(o, ob, path, "not-run", "")
 			}
